@@ -373,6 +373,75 @@ func c17(r *core.Run) {
 		}
 	}
 	r.Analysed["wildcard_comparisons"] = nCmp
+	// ... and a pattern byte is compared literally with a byte of the argument only after the
+	// wildcard question was asked: a test of the token-start flag or of the pattern byte against
+	// '$' / '*' / '>' dominates every literal comparison. With the literal comparison first, a name
+	// token that happens to start with the wildcard character is matched byte-wise against the tag
+	// name ("$id" vs "$42"), while extraction, routing and the transformers treat it as a value.
+	for _, fn := range scanners {
+		if len(fn.Params) < 2 || fn.Parent() != nil {
+			continue
+		}
+		recv := ssa.Value(fn.Params[0])
+		hasWild := false
+		for _, b := range fn.Blocks {
+			for _, in := range b.Instrs {
+				if bo, ok := in.(*ssa.BinOp); ok && bo.Op == token.EQL {
+					if k, isC := core.ConstInt(bo.Y); isC && (k == '$' || k == '*' || k == '>') && fromPatternRecv(bo.X, recv, 0) {
+						hasWild = true
+					}
+				}
+			}
+		}
+		if !hasWild {
+			continue
+		}
+		fromArg := func(v ssa.Value) bool {
+			var base ssa.Value
+			switch lk := core.Strip(v).(type) {
+			case *ssa.Lookup:
+				base = lk.X
+			case *ssa.Index:
+				base = lk.X
+			default:
+				return false
+			}
+			prm, ok := core.Strip(base).(*ssa.Parameter)
+			return ok && prm != fn.Params[0] && isStringType(prm.Type())
+		}
+		nLit := 0
+		for _, b := range fn.Blocks {
+			for _, in := range b.Instrs {
+				bo, ok := in.(*ssa.BinOp)
+				if !ok || (bo.Op != token.EQL && bo.Op != token.NEQ) {
+					continue
+				}
+				if !((fromPatternRecv(bo.X, recv, 0) && fromArg(bo.Y)) || (fromPatternRecv(bo.Y, recv, 0) && fromArg(bo.X))) {
+					continue
+				}
+				nLit++
+				decided := false
+				for _, d := range fn.Blocks {
+					if len(d.Instrs) == 0 || !(d != b && d.Dominates(b)) {
+						continue
+					}
+					iff, ok := d.Instrs[len(d.Instrs)-1].(*ssa.If)
+					if !ok {
+						continue
+					}
+					if isF, _ := condIsFlag(iff.Cond); isF {
+						decided = true
+					}
+					if wb, ok := iff.Cond.(*ssa.BinOp); ok && wb.Op == token.EQL {
+						if k, isC := core.ConstInt(wb.Y); isC && (k == '$' || k == '*' || k == '>') && fromPatternRecv(wb.X, recv, 0) {
+							decided = true
+						}
+					}
+				}
+				r.Check(decided, "G1", core.FuncName(fn), fmt.Sprintf("literal-compare#%d-after-the-wildcard-decision", nLit), p.InstrPos(bo), "the literal comparison is reached only after the token-start / wildcard test", "a pattern byte is compared with the argument's byte before it was asked whether it is a wildcard at the start of a token: a name token that starts with '$', '*' or '>' is then matched literally against the tag name, although extraction, routing and the id transformers treat the token as a value - matching and the other operations disagree")
+			}
+		}
+	}
 	// fetch: element-0 form
 	if fetch := methodNamed(p, "", "Mux", "fetch"); fetch != nil {
 		for _, b := range fetch.Blocks {
